@@ -221,11 +221,17 @@ fn c06_converge() {
     let ob = orders[choice(orders.len())].clone();
     let mut a = reg.clone();
     let mut b = reg.clone();
+    // every state a replica reaches through accepted operations is itself valid for every other replica (it is what
+    // the replica would hand out): also the states in which an operation arrived before the one it was written on
     for i in &oa {
         a.add_op(pool[*i].clone()).expect("valid op accepted");
+        check_bool("converge:every_reachable_state_is_accepted_as_valid", a.verify().is_ok());
     }
     for i in &ob {
         b.add_op(pool[*i].clone()).expect("valid op accepted");
+        check_bool("converge:every_reachable_state_is_accepted_as_valid", b.verify().is_ok());
+        let mut fresh = reg.clone();
+        check_bool("converge:every_reachable_state_can_be_merged_by_another_replica", fresh.verified_merge(&b).is_ok() && fresh.ops() == b.ops());
     }
     b.add_op(pool[ob[0]].clone()).expect("duplicate delivery accepted");
     note(format!("order A {oa:?}, order B {ob:?}"));
